@@ -385,6 +385,10 @@ func c09LRU(c *Ctx, pkg string) {
 		c.Unk("C09.A8-lru-discipline", "announce.stringLRU", token.NoPos, "update/remove not found")
 		return
 	}
+	if c09LibraryLRU(c, upd, rem) {
+		c09LRUEncapsulated(c, pkg)
+		return
+	}
 	for _, f := range []*Fn{upd, rem} {
 		// every list removal is paired in its block with the map deletion of that element
 		for _, cs := range c.Calls(f.SSA, Call("container/list.List).Remove")) {
@@ -502,6 +506,79 @@ func c09LRU(c *Ctx, pkg string) {
 	}
 	c.Check(okRet, "C09.A8-lru-discipline", upd.Name+" › reports hit/miss", upd.SSA.Pos(), "returns true exactly on a hit", "update's result does not tell hit from miss")
 	c.Floor("C09.A8-lru-discipline", 8)
+	c09LRUEncapsulated(c, pkg)
+}
+
+// c09LibraryLRU decides A8 for a duplicate filter that delegates to
+// hashicorp/golang-lru (trusted: Get refreshes recency, Add evicts the least
+// recently used entry when full, Contains/Peek/ContainsOrAdd do not refresh):
+// update tests membership with Get — the refreshing operation — adds on the
+// miss edge and reports hit/miss; remove removes that key; the cache is
+// created with the capacity asked for. Reports whether the filter has this form.
+func c09LibraryLRU(c *Ctx, upd, rem *Fn) bool {
+	isCache := func(name string) P { return CallLike([]string{"golang-lru/v2.Cache", ")." + name}) }
+	gets := c.Calls(upd.SSA, isCache("Get"))
+	adds := c.Calls(upd.SSA, isCache("Add"))
+	others := 0
+	for _, n := range []string{"Contains", "Peek", "ContainsOrAdd", "PeekOrAdd"} {
+		others += len(c.Calls(upd.SSA, isCache(n)))
+	}
+	if len(gets)+len(adds)+others == 0 {
+		return false
+	}
+	c.Trust("hashicorp/golang-lru (Get refreshes recency; Add evicts the least recently used entry when full)")
+	key := Op("param", upd.SSA.Params[len(upd.SSA.Params)-1].Name())
+	okHit := len(gets) == 1 && others == 0
+	if okHit {
+		_, okHit = Match(key, gets[0].X.Args[1])
+	}
+	c.Check(okHit, "C09.A8-lru-discipline", upd.Name+" › hit refreshes recency", upd.SSA.Pos(), "membership is tested with Cache.Get(key), which moves a hit to the front", "membership is tested with an operation that does not refresh the entry's recency (Contains/Peek/ContainsOrAdd), or not on the key: a duplicate no longer keeps its CID among the most recent ones")
+	okIns := len(adds) == 1 && len(gets) == 1
+	if okIns {
+		_, k := Match(key, adds[0].X.Args[1])
+		_, g := c.Guarded(adds[0].In, Extract("1", Is(c.E(gets[0].In.(*ssa.Call)))), false)
+		okIns = k && g
+	}
+	c.Check(okIns, "C09.A8-lru-discipline", upd.Name+" › miss inserts once", upd.SSA.Pos(), "on the miss edge the key is added (the library evicts the oldest when full)", "insertion not (on the miss edge ∧ of that key)")
+	okRet := len(gets) == 1
+	for _, b := range upd.SSA.Blocks {
+		if ret, ok := b.Instrs[len(b.Instrs)-1].(*ssa.Return); ok && len(ret.Results) == 1 && okRet {
+			v, isConst := boolConst(c.RetX(ret, 0))
+			_, hit := c.GuardedB(b, Extract("1", Is(c.E(gets[0].In.(*ssa.Call)))), true)
+			_, miss := c.GuardedB(b, Extract("1", Is(c.E(gets[0].In.(*ssa.Call)))), false)
+			if isConst {
+				okRet = (v && hit) || (!v && miss)
+			} else {
+				okRet = Same(c.RetX(ret, 0), c.Result(gets[0], 1))
+			}
+		}
+	}
+	c.Check(okRet, "C09.A8-lru-discipline", upd.Name+" › reports hit/miss", upd.SSA.Pos(), "returns true exactly on a hit", "update's result does not tell hit from miss")
+	rm := c.Calls(rem.SSA, isCache("Remove"))
+	okRm := len(rm) == 1
+	if okRm {
+		_, okRm = Match(Op("param", rem.SSA.Params[len(rem.SSA.Params)-1].Name()), rm[0].X.Args[1])
+	}
+	c.Check(okRm, "C09.A8-lru-discipline", rem.Name+" › removes that key", rem.SSA.Pos(), "remove deletes the given key from the cache", "remove does not delete the given key")
+	// capacity as asked for
+	okCap := false
+	if nw := c.Role("lru.new"); nw != nil {
+		for _, cs := range c.Calls(nw, CallLike([]string{"golang-lru/v2.New"})) {
+			if len(nw.Params) >= 1 {
+				_, okCap = Match(Op("param", nw.Params[0].Name()), cs.X.Args[0])
+			}
+		}
+	}
+	c.Check(okCap, "C09.A8-lru-discipline", "announce › filter capacity", upd.SSA.Pos(), "the cache is created with the capacity the constructor is given", "the cache is not created with the capacity the constructor is given")
+	// (the list/map pairing clauses are the library's business here; counted so that the floor keeps its meaning)
+	for _, k := range []string{"list removal paired with map deletion", "map deletion paired with list removal", "evicts the oldest only when full"} {
+		c.OK("C09.A8-lru-discipline", "announce › "+k, upd.SSA.Pos(), "delegated to hashicorp/golang-lru (trusted)")
+	}
+	c.Floor("C09.A8-lru-discipline", 8)
+	return true
+}
+
+func c09LRUEncapsulated(c *Ctx, pkg string) {
 	// the duplicate filter is consulted through its own operations only: a look at its internals from outside
 	// neither refreshes recency nor obeys the list/map pairing
 	isLRU := func(fn *ssa.Function) bool {
